@@ -204,28 +204,30 @@ CHECKS = [
 # what was added to each check after its first version (seed waves and triage of reported defects, DESIGN.md sections 8 and 10)
 ADDED = {
  'C01': 'History oracle: the topology object that already holds the model loads its own text / file again (same id). File-based '
-        'imports reuse a path that held another document before.',
+        'imports reuse a path that held another document before; files named after the other format (content decides).',
  'C02': 'Blob values whose encoding is exactly as long as the size limit; sub-interfaces under dedicated and trunk ports; results of '
-        'reads are edited and read again (no aliasing).',
+        'reads are edited and read again (no aliasing); the type comes back as a member of the class\'s own vocabulary, also after '
+        'another sliver class went through the same conversions before (every ordered pair of classes, forked process per case).',
  'C03': 'Unknown fields carry values of every JSON kind (string, number, negative, float, bool, null, list, object) at every position; '
-        'decoding twice after editing the first result; finalized maintenance records and their entries.',
+        'decoding twice after editing the first result; finalized maintenance records and their entries; data blobs: decode, edit the result, use the blob again.',
  'C04': 'File-based direct import next to the string variant, and documents whose nodes name two graphs (must be refused by both); '
         'failing imports; allocator health is part of every canonical state; states are histories replayed on library-built stores; graph id and type '
-        'rewrites as events; listings by class (and type) obey the same isolation as single reads.',
+        'rewrites as events; listings by class (and type) obey the same isolation as single reads; all file imports of a process go through one path.',
  'C05': 'Property bags, merge policies and id updates that contradict a node\'s identity (refused, or carried out with the identity '
         'kept); merge policies for properties only one node has and unknown policies; whole-graph NodeID, per-node GraphID, None for '
-        'identity properties; agreement of the two backends on open queries.',
+        'identity properties; agreement of the two backends on open queries; whole-graph update of the graph id (re-keying) on 4 shapes x '
+        'target id free / in use.',
  'C06': 'Directed documents imported directly, re-import seen through an older handle, merge with a neighbour graph.',
  'C07': 'Refused calls are part of the alphabet (all failing variants of C09): what they leave behind is judged by the same rules. '
         'Full type-vocabulary sweep (every node, component and service type). Roots R3 (crafted names) and R4 (switch services that '
-        'peer, a twin port name on a second switch service); links over service ports, the same interface twice, service-port type rewrites.',
+        'peer, a twin port name on a second switch service); links over service ports, the same interface twice, type rewrites to, from and between service port and sub-interface.',
  'C08': 'Undo through an older handle; a working copy next to an older model with the same element ids; root R4 (peerings of '
         'switch services, also next to a connection); stub links over one interface; disconnecting through the wrong service.',
  'C09': 'Interfaces argument that cannot be walked (number, failing generator); nested slivers at node creation; derived names '
-        'that become too long; stale handles; links given as tuples whose returned handle is used.',
+        'that become too long; stale handles; links given as tuples whose returned handle is used; a new name among the values of a failing bulk update.',
  'C10': 'History groups: validated, emptied, re-connected elsewhere (declared site); created, listed and validated once, then changed '
         'through the creation handle (grown, shrunk, swapped, nodes relocated); two peered services; nodes made by add_switch / '
-        'add_facility with the site taken away; same-named service ports.',
+        'add_facility with the site taken away; same-named service ports; cases judged in a forked process after another slice used every service setter.',
  'C11': 'A P4 switch among the nodes in every position (resource type); facilities on a site of their own, also with a service type '
         'that has no site limit; sizing by hints or none; decoy collectors used earlier in the process.',
  'C12': 'A pool called the empty string; detail fields set to an empty string / list; re-indexing after a change against a '
@@ -234,13 +236,15 @@ ADDED = {
         'topology object and partitioning again; parallel links and an isolated stitching node; a delegation that only refers to a pool.',
  'C14': 'Families whose shared ports carry only one kind of delegation, and family F2x whose copies of a shared element differ in a '
         'plain property (reference: the copy that brought the element in); family F2o with an isolated stitching node present only in the '
-        'delegated models; the union built twice through the same handle; allocator health in the canonical state.',
+        'delegated models; the union built twice through the same handle; family F2e (a model that only adds a connection between shared elements); two '
+        'snapshots outstanding at a time; allocator health in the canonical state.',
  'C15': 'Signed operand vectors; augmented assignment on a second name for an operand; every non-zero field appears in the printout.',
  'C16': 'Labels edited attribute by attribute after construction and then put on an element / a sliver; labels, tags, delegations, pools and gateways edited through the update paths of an element; boot '
         'script boundary pinned (1023 accepted, 1024 rejected); blob sizes around the limit in four text forms; names through every decode '
         'path (from_dict, from_json, nested).',
- 'C17': 'A SmartNIC described without its network service; equal user data in two spellings.',
- 'C18': 'One Labels object shared by all ports, label lists with empty entries, caller objects left untouched; results of the instance catalogue edited by the '
+ 'C17': 'A SmartNIC described without its network service; equal user data in two spellings; user data read and scribbled on before '
+        'the comparison, and changed by editing the decode of the old side (the reference reads the stored text).',
+ 'C18': 'One Labels object shared by all ports, label lists with empty entries and with repeated values (expectation from the raw values), caller objects left untouched; results of the instance catalogue edited by the '
         'caller; deviation bound 1 on the environment of the catalogue loaders (open fails, read fails, short read, then a retry).',
  'C19': 'Merge policy maps of size 0, 1 and 2; well-formedness also for the harmless variants; record contents as an environment answer; variants per node class; every ordered pair of operations on '
         'one driver object in a forked process (what the first leaves behind must not change the statements of the second).',
